@@ -188,7 +188,7 @@ namespace xtl
                     tmp.vtable = nullptr;
                 }
             }
-            else  // same types
+            else if (this != &rhs)  // same types
             {
                 if (this->vtable != nullptr)
                     this->vtable->swap(this->storage, rhs.storage);
